@@ -30,7 +30,9 @@ import (
 //   - with SetMaxBuf(n): the run ends with io.EOF or ErrBufferExceeded, no
 //     token is longer than n, the internal buffer never grows beyond
 //     max(4096, 4n), and a run that ends with io.EOF is identical to the
-//     unlimited run (so a token longer than n forces ErrBufferExceeded).
+//     unlimited run (so a token longer than n forces ErrBufferExceeded). This
+//     clause is checked for a few n over the fragment inputs and for EVERY n
+//     in 1..len+1 over the look-ahead family (c39StateInputs).
 
 var c39Alphabet = []string{
 	"<", "</", ">", "/>", "a", "script", "title", "textarea", "plaintext",
